@@ -13,9 +13,9 @@ def run(ctx):
         p = D.params(rng)
         if i % 6 == 1:      # fractional data, references on the even lattice in integer-typed containers
             p["halves"] = True
-            p["feed"] = {"seed": rng.randrange(10 ** 6), "kinds": [rng.choice(["intarray", "lists", "intframe"])]}
+            p["feed"] = {"seed": rng.randrange(10 ** 6), "kinds": [rng.choice(["intarray", "lists", "intframe", "objarray", "objframe"])]}
         elif i % 3 != 0:      # two thirds of the histories draw their containers per call (arrays in either order, frames, lists, int dtypes, views)
-            C.choose(rng, p, C.BATCH_KINDS)
+            C.choose(rng, p, C.BATCH_KINDS + C.LOOSE_BATCH_KINDS)
         ts.append(D.run(p, D.history(rng, p, nb), seed=rng.randrange(10 ** 6), frame=rng.random() < 0.6))
     ctx.validate("HDM", ts, "HDDDM / CDBD histories on integer data", sabotage=D.sabotage,
                  replay=lambda i: {"params": ts[i]["params"], "script": ts[i]["script"], "seed": ts[i]["seed"], "frame": ts[i]["frame"]},
